@@ -40,8 +40,13 @@ def vname(n):
     return n if _name_ok.match(n) and '[' not in n else '|%s|' % n
 
 
+class NoRelax(Exception):
+    pass
+
+
 class Printer(object):
-    def __init__(self):
+    def __init__(self, relax=False):
+        self.relax = relax      # treat Int-sorted terms as Real (sound for proving: unsat over R => unsat over Z); no floor/div/mod
         self.lines = []
         self.names = {}     # uid -> smt name/expr
         self.decls = []
@@ -58,9 +63,9 @@ class Printer(object):
             if s.uid in self.names:
                 continue
             op = s.op
-            srt = {'R': 'Real', 'I': 'Int', 'B': 'Bool'}[s.sort]
+            srt = {'R': 'Real', 'I': 'Real' if self.relax else 'Int', 'B': 'Bool'}[s.sort]
             if op == 'const':
-                self.names[s.uid] = _qr(s.args[0]) if s.sort == tm.R else _q(s.args[0])
+                self.names[s.uid] = _qr(s.args[0]) if (s.sort == tm.R or self.relax) else _q(s.args[0])
                 continue
             if op == 'bconst':
                 self.names[s.uid] = 'true' if s.args[0] else 'false'
@@ -70,12 +75,18 @@ class Printer(object):
                 self.names[s.uid] = n
                 self.decls.append('(declare-const %s %s)' % (n, srt))
                 self.varsorts[s.args[0]] = s.sort
-                if s.sort == tm.I:
+                if s.sort == tm.I and not self.relax:
                     self.has_int = True
                 if s.args[0] == PI_NAME:
                     self.axioms.append('(assert (and (< 3.14159 pi) (< pi 3.14160)))')
                 continue
             a = [self.names[x.uid] if isinstance(x, tm.T) else x for x in s.args]
+            if self.relax:
+                if op in ('floor', 'idiv', 'imod'):
+                    raise NoRelax(op)
+                if op == 'toreal':
+                    self.names[s.uid] = a[0]
+                    continue
             if op == 'app':
                 n = 'app_%s_%d' % (a[0], s.uid)
                 self.names[s.uid] = n
@@ -123,7 +134,7 @@ class Printer(object):
     def _coerce2(self, s):
         x, y = s.args
         nx, ny = self.names[x.uid], self.names[y.uid]
-        if x.sort != y.sort:
+        if x.sort != y.sort and not self.relax:
             if x.sort == tm.I:
                 nx = self._as_real(x)
             if y.sort == tm.I:
@@ -133,6 +144,8 @@ class Printer(object):
     def _as_real(self, x):
         if x.op == 'const':
             return _qr(x.args[0])
+        if self.relax:
+            return self.names[x.uid]
         self.has_int = True
         return '(to_real %s)' % self.names[x.uid]
 
@@ -214,9 +227,18 @@ class Printer(object):
         return out
 
 
-def to_smt2(assumptions, goal, logic=None, extra_axioms=()):
+def to_smt2_relaxed(assumptions, goal):
+    """real relaxation of a mixed Int/Real obligation, or None when it uses floor/div/mod or has no Int terms"""
+    try:
+        text, pure, vs = to_smt2(assumptions, goal, relax=True)
+    except NoRelax:
+        return None
+    return text
+
+
+def to_smt2(assumptions, goal, logic=None, extra_axioms=(), relax=False):
     """SMT-LIB text whose unsatisfiability means  assumptions |- goal"""
-    p = Printer()
+    p = Printer(relax=relax)
     roots = list(assumptions) + [goal] + list(extra_axioms)
     p.emit_terms(roots)
     ax = p.app_axioms()
